@@ -12,6 +12,7 @@ import (
 
 	"verif/harness/ev"
 	"verif/harness/fake"
+	"verif/harness/opgen"
 	"verif/harness/world"
 )
 
@@ -178,7 +179,9 @@ func TestC12(t *testing.T) {
 			o.MaxList = rapid.SampledFrom([]int{1, 2, 5, 20}).Draw(t, "maxlist")
 			o.MaxEntities = rapid.IntRange(1, 3).Draw(t, "maxent")
 		}
-		defer func() { storeOverride = nil }()
+		// result size grows with (list length)^depth: keep the product bounded, the statement is about round trips
+		opOverride = func(o *opgen.Options) { o.MaxDepth = 3 }
+		defer func() { storeOverride = nil; opOverride = nil }()
 		base, _ := genExecCase(t, rec, ast.Query)
 		if base == nil {
 			return
